@@ -7,7 +7,7 @@ use crate::ast::*;
 use crate::gen::Gen;
 use crate::run::*;
 use crate::Ctx;
-use liquid_core::model::{Object, Value};
+use liquid_core::model::{Object, Value, ValueView};
 
 pub struct Scenario {
     pub main: Vec<Node>,
@@ -152,6 +152,16 @@ fn metamorphic(ctx: &mut Ctx) {
             1 => RForm::For(RangeE::Counted(lit_i(1), lit_i(g.rng.range(0, 3))), g.name()),
             _ => RForm::Plain,
         };
+        // for the `for … as` form over (1..n): the same thing as n separate `with j as` renders
+        let unrolled: Option<Vec<Node>> = match &form {
+            // (an argument named like the item is shadowed by the item in the `for` form but wins over
+            // the `with` value, so the two are only comparable without such a collision)
+            RForm::For(RangeE::Counted(Expr::Lit(lo), Expr::Lit(hi)), as_) if !args.iter().any(|(n, _)| n == as_) => {
+                let (lo, hi) = (lo.as_scalar().and_then(|s| s.to_integer()).unwrap_or(1), hi.as_scalar().and_then(|s| s.to_integer()).unwrap_or(0));
+                Some((lo..=hi).map(|j| Node::Render(lit_s(&callee), RForm::With(lit_i(j), as_.clone()), args.clone())).collect())
+            }
+            _ => None,
+        };
         let call = Node::Render(lit_s(&callee), form, args);
         g.allow_partials = false;
         g.partials = vec![];
@@ -179,6 +189,19 @@ fn metamorphic(ctx: &mut Ctx) {
         let ob = render_text(&parser, &src_tmpl(&b), &data);
         let oc = render_text(&parser, &src_tmpl(&c), &data);
         let mut kind = "meta".to_string();
+        if let Some(u) = unrolled {
+            let mut d = pre1.clone();
+            d.push(text(OPEN));
+            d.extend(u);
+            d.push(text(CLOSE));
+            d.extend(t_tail.clone());
+            let od = render_text(&parser, &src_tmpl(&d), &data);
+            if let (Some(x), Some(y)) = (between(&oa, OPEN, CLOSE), between(&od, OPEN, CLOSE)) {
+                if x != y {
+                    kind = "FOR-AS".into();
+                }
+            }
+        }
         if let (Some(x), Some(y)) = (after(&oa, TAIL), after(&ob, TAIL)) {
             if x != y {
                 kind = "ISOLATION".into();
